@@ -957,7 +957,7 @@ def run_pipes(env, res, rng0, ctxs, hist, rp):
         specs_ = [rp['pipe']]
     else:
         specs_ = None
-    n = 2600 if tier == 'quick' else 40000
+    n = 2600 if tier == 'quick' else 25000
     n_order = 150 if tier == 'quick' else 2000
     tries = 0
     while (specs_ is None and len(todo) < n and tries < 4 * n) or (specs_ and tries < len(specs_)):
